@@ -684,7 +684,8 @@ def main(tier: str, seed: int) -> int:
             "one parse('r', chr(c)) per code point on r = { X }: every ASCII built-in, NEWLINE and ANY over ALL 1,114,112 code points x 4 modes; "
             f"a family of {len(others)} ranges / literals / optimizer-merged choices (case boundaries, regex metacharacters, plane boundaries, "
             "case-fold traps) - all of them fully swept in the thorough tier, a seeded 6 fully + the rest on U+0000-2FFF and a 1/17 stride in quick; "
-            "Unicode property rules by cross-mode agreement (all in thorough, seeded 24 with stride 7 in quick); every escape form by probing "
+            "Unicode property rules by cross-mode agreement (all in thorough, seeded 24 with stride 7 in quick), the 42 rules CPython can answer also absolutely on "
+            "version-stable code points in every mode, and Unicode rules inside squashable choices / under predicates relative to the bare rule; every escape form by probing "
             "768 + boundary code points around the decoded value, in strings and in range bounds; escape SEQUENCES (incl. bodies whose decoded text "
             "contains a backslash followed by escape-looking text) in plain, CI, CI-in-choice, PUSH_LITERAL and squashed-choice contexts, judged on the "
             "decoded text and on every other reading of the body; CI literals mixing letters with digits / punctuation inside squashable choices on "
@@ -693,10 +694,11 @@ def main(tier: str, seed: int) -> int:
         ),
         assumptions=[
             "set predicates in pv/checks/c12.py are the specification (pest book tables); CI literals judged on ASCII input only",
-            "Unicode property rules: cross-mode agreement only",
+            "Unicode property rules: cross-mode agreement; absolute for the general-category rules, XID_START, XID_CONTINUE, UPPERCASE, LOWERCASE on code points whose "
+            "category is the same in Unicode 3.2 and in CPython's unicodedata (plus noncharacters), without U+0295, U+200C, U+200D (changed by the standard after 15.0)",
         ],
         evaluations_key="code_points_tested",
-        floors={"code_points_tested": 1_000_000, "rule_mode_sweeps": 40, "unicode_rule_tasks": 20, "escape_forms": 40, "escape_sequence_forms": 100, "ci_choice_families": 10, "end_of_input_probes": 80, "ci_choice_probes_accepted": 200},
+        floors={"code_points_tested": 1_000_000, "rule_mode_sweeps": 40, "unicode_rule_tasks": 20, "unicode_abs_tasks": 160, "unicode_abs_accepted": 50_000, "unicode_context_tasks": 16, "escape_forms": 40, "escape_sequence_forms": 100, "ci_choice_families": 10, "end_of_input_probes": 80, "ci_choice_probes_accepted": 200},
         exhaustive=not run.quick,
     )
 
@@ -719,6 +721,8 @@ def replay(path: str) -> int:
                 want = bool(table[v["spec"]][2](v["code_point"]))
             elif "expected_code_point" in v:
                 want = v["code_point"] == v["expected_code_point"]
+            elif "expected_member" in v:
+                want = v["expected_member"]  # Unicode rules: the recorded answer of CPython's tables / of the bare rule
             else:
                 want = None
             print(m, "U+%04X" % v["code_point"], "accepted" if got is True else got, "expected member:", want)
